@@ -688,8 +688,13 @@ func (u *Univ) Zero(t types.Type) string {
 
 // isValueTerm: literals and constructor applications over literals (what cvc5 accepts inside constant arrays)
 func isValueTerm(t string) bool {
-	if strings.Contains(t, "str!") || strings.Contains(t, "!") {
-		return false
+	for _, tok := range strings.FieldsFunc(t, func(r rune) bool { return r == '(' || r == ')' || r == ' ' }) {
+		switch {
+		case isIntLit(tok), tok == "-", tok == "true", tok == "false", tok == "nilInt", tok == "nilDec":
+		case strings.HasPrefix(tok, "mk"), tok == "as", tok == "None", tok == "Opt", tok == "Int", tok == "Bool":
+		default:
+			return false
+		}
 	}
 	return true
 }
